@@ -78,8 +78,9 @@ A13 = A.restrict('A13', gaps=(1, 3))
 A12 = A.restrict('A12', x0s=(0,), gaps=(1, 2))
 A1 = A.restrict('A1', x0s=(0,), gaps=(1,))
 Y013 = Profile('Y013', (0,), (1,), (0, 1, 3))
+G12Y013 = Profile('G12Y013', (0,), (1, 2), (0, 1, 3))
 
-PROFILES = {p.name: p for p in (A, B, C, P, M, A13, A12, A1, Y013)}
+PROFILES = {p.name: p for p in (A, B, C, P, M, A13, A12, A1, Y013, G12Y013)}
 
 # "huge / tiny magnitudes": exact (power of two) and inexact rescalings
 SCALES = [(1.0, 2.0 ** -60), (1.0, 2.0 ** 60), (2.0 ** -40, 1.0), (2.0 ** 40, 2.0 ** 40),
